@@ -379,6 +379,9 @@ func genFor(prop, part string, seed uint64) *Scenario {
 			pf.slowP = 3
 		}
 	case "C02":
+		if part == "waiters" {
+			return genC02Waiters(seed)
+		}
 		if part == "err" {
 			sc := genC15(seed, common.NewRng(seed).PickS("filler", "filler", "output"))
 			sc.Fam = "C02/err"
@@ -405,6 +408,11 @@ func genFor(prop, part string, seed uint64) *Scenario {
 		pf.trigP = 70
 		pf.modes = []string{"auto", "auto", "manual", "none"}
 	case "C16":
+		if part == "queue" {
+			sc := genC17(seed, "mixed")
+			sc.Fam = "C16/queue"
+			return sc
+		}
 		if part == "err" {
 			sc := genC15(seed, common.NewRng(seed).PickS("filler", "filler", "output"))
 			sc.Fam = "C16/err"
@@ -667,7 +675,24 @@ func runSched(job common.Job, em *emitter) {
 		res.Obs["delays_applied"] = rr.delaysN.Load()
 		if rr.trigFired.Load() {
 			res.Obs["triggers_fired"] = 1
-			res.Obs["trigger@"+sc.Trig.Point]++
+			res.Obs[fmt.Sprintf("site:%s@%s#%d", sc.Trig.Action, sc.Trig.Point, sc.Trig.Occ)]++
+		} else if sc.Trig != nil {
+			res.Obs["triggers_not_reached"]++
+		}
+		if a.errCycle {
+			k := 0
+			for _, b := range sc.Bars {
+				if b.FailAt > 0 {
+					k = b.FailAt
+				}
+				if b.ExtFailAt > 0 {
+					k = b.ExtFailAt
+				}
+			}
+			if sc.OutFailAt > 0 {
+				k = sc.OutFailAt
+			}
+			res.Obs[fmt.Sprintf("site:fault:%s#%d", a.faultSite(), k)]++
 		}
 		for pi := 0; pi < hpCount; pi++ {
 			if n := rr.hookOcc[pi].Load(); n > 0 {
@@ -747,4 +772,34 @@ func stripPrioIfPop(sc *Scenario) {
 		}
 		sc.Clients[ci] = keep
 	}
+}
+
+// genC02Waiters: several goroutines parked in Progress.Wait while bars with
+// many shutdown-listener decorators finish (the wait group is waited on by
+// several callers and used by the bars' exit paths at the same time).
+func genC02Waiters(seed uint64) *Scenario {
+	r := common.NewRng(seed)
+	sc := &Scenario{Fam: "C02/waiters", Seed: seed, Q: -1, Width: 600, End: "natural", Policy: r.PickS("none", "light"), Mode: r.PickS("auto", "manual", "none"), RefreshUS: r.Pick(100, 1000), Late: true}
+	n := r.Range(1, 4)
+	for i := 0; i < n; i++ {
+		b := simpleBar(int64(r.Pick(1, 5, 100)))
+		b.Filler = "nop"
+		for k := 0; k < r.Pick(4, 12, 30); k++ {
+			b.App = append(b.App, DecSpec{Kind: "listener", Vary: r.Intn(2), Wrap: r.PickS("", "", "oncomplete", "meta")})
+		}
+		b.Finish = r.PickS("complete", "abort")
+		sc.Bars = append(sc.Bars, b)
+	}
+	for w := 0; w < r.Range(2, 6); w++ {
+		sc.Waiters = append(sc.Waiters, []Op{{K: "pwait"}})
+	}
+	var ops []Op
+	for k := 0; k < r.Range(0, 6); k++ {
+		ops = append(ops, Op{K: "incr", B: r.Intn(n), N: 1})
+	}
+	sc.Clients = [][]Op{ops}
+	if r.Chance(1, 3) {
+		sc.End = r.PickS("cancel", "shutdown")
+	}
+	return sc
 }
